@@ -11,7 +11,9 @@ RULE = ('exhaustive small scope: every cluster-assignment vector up to the tier\
         'subset of {0,1,2,3,7,9} on the shorter vectors, unsorted/duplicated/absent lists on the longer '
         'ones), every permutation of every subset of the alphabet as unsorted lookup; each abstract input '
         'is run under every dtype of int32/int64/uint16/uint32 that can hold it and every distinct '
-        'observation is judged; then seeded random long vectors. Non-trivial = at least two spikes and, '
+        'observation is judged; for the dtype-aware model (kind spc_dt) every vector up to length 3 (quick) / 5 (thorough) '
+        'over the extreme values {-128,-1,0,1,127} of int8 and {0,1,128,255} of uint8, one dtype per case, wrapping '
+        'differences included; then seeded random long vectors. Non-trivial = at least two spikes and, '
         'for grouping/selection, at least two distinct ids or a non-empty result; distinct = distinct '
         'abstract input.')
 EXHAUSTIVE = {'quick': True, 'thorough': True}
@@ -31,7 +33,9 @@ TRUSTED = ['np.argsort(kind="mergesort") is a stable sort; np.isin / np.bincount
            'TemplateModel query methods are run on an instance built with __new__ and the three attributes they '
            'read (spike_clusters, spike_templates, n_templates); dataset loading is C04',
            'the one floating-point division of grouped_mean is reproduced with Coq primitive floats on exact operands']
-ASSUMES = ['values fit the dtype; max - min of the ids < 2^31 (no wrap-around of np.diff on sorted neighbours is modelled)',
+ASSUMES = ['values fit the dtype; kinds spc / spc_flatten: max - min of the ids < 2^31 and the model is over Z (justified by '
+           'C07_no_wrap); kinds spc_dt / index_of_dt: the dtype-aware model (modular first difference, int32 table size), '
+           'any span, property clauses judged where no two ids differ by more than the top of the dtype range',
            '_index_of: lookup distinct and non-negative, queried ids in the lookup or -1',
            'grouped_mean: non-negative ids, integer data with |sum| < 2^53',
            'get_template_counts: non-negative templates, len(spike_templates) >= len(spike_clusters)']
@@ -42,7 +46,8 @@ REQ = (0, 1, 2, 3, 7, 9)
 DT_ALL = ['int32', 'int64', 'uint16', 'uint32']
 DT_SIGNED = ['int32', 'int64']
 LIMITS = {'int32': (-2 ** 31, 2 ** 31 - 1), 'int64': (-2 ** 63, 2 ** 63 - 1),
-          'uint16': (0, 2 ** 16 - 1), 'uint32': (0, 2 ** 32 - 1)}
+          'uint16': (0, 2 ** 16 - 1), 'uint32': (0, 2 ** 32 - 1),
+          'int8': (-2 ** 7, 2 ** 7 - 1), 'uint8': (0, 2 ** 8 - 1)}       # the 8-bit dtypes: kind spc_dt only
 
 
 def _dts(*lists):
@@ -151,7 +156,62 @@ def _corpus():
     c.append(_case('counts', sc=[0, 0, 1], st=[2, 2], nt=3, c=0, dts=DT_ALL))                     # short templates, not reached
     c.append(_case('counts', sc=[0, 0, 1], st=[2, 2], nt=3, c=1, dts=DT_ALL))                     # short templates: IndexError
     c.append(_case('flatten', d=[[3, []], [1, []]]))                                              # only empty groups
+    # stage 3: the dtype-aware model (C07_no_wrap).  Unsigned: ids 0 and the top of the range together
+    for dt, v in (('uint16', [65535, 0, 1, 65535]), ('uint16', [0, 65535]), ('uint32', [0, 4294967295, 0]),
+                  ('uint32', [4294967295, 0, 2147483648, 1]), ('uint8', [255, 0, 255, 128, 0]),
+                  # signed, ids at most dt_hi apart: no wrap either
+                  ('int32', [-2147483648, -1]), ('int32', [0, 2147483647, 0]), ('int64', [-2 ** 63, -1]),
+                  ('int8', [-128, -1, -128]), ('int8', [-1, 126]),
+                  # signed, ids MORE than dt_hi apart: the first difference wraps, clusters are merged (C07_ex_signed_wrap)
+                  ('int32', [-2147483648, 2147483647]), ('int32', [-2147483648, 0]), ('int32', [-1, 2147483647]),
+                  ('int32', [5, -2147483648, 2147483647, 5, -2147483648]), ('int64', [-2 ** 63, 2 ** 63 - 1]),
+                  ('int8', [-128, 127]), ('int8', [127, -1, 0, -128])):
+        c.append(_case('spc_dt', sc=v, ids=None, dts=[dt]))
+    c.append(_case('spc_dt', sc=[65535, 0, 1, 65535], ids=[9, 8, 7, 6], dts=['uint16']))
+    c.append(_case('spc_dt', sc=[0, 255], ids=[4], dts=['uint8']))                                # ids too short
+    # _index_of: the table size max + 2 is an int32 addition (C07_no_wrap_index_of)
+    c.append(_case('index_of_dt', arr=[7, 0, 3, -1, 2], lookup=[7, 3, 0, 2], dts=['int64']))
+    c.append(_case('index_of_dt', arr=[0], lookup=[2147483646], dts=['int64']))                   # max + 2 wraps: ValueError
+    c.append(_case('index_of_dt', arr=[0], lookup=[2147483647], dts=['int64']))                   # max + 1 wraps: ValueError
+    c.append(_case('index_of_dt', arr=[3], lookup=[3, 2147483647, 0], dts=['int64']))
+    c.append(_case('index_of_dt', arr=[-1], lookup=[], dts=['int64']))
+    # stage 3 (mutation triage): the argument None and a plain Python list (np.asarray([]) is float64, so the
+    # `len(x) == 0` exit of _unique is what keeps bincount away from a float array); results must be integer arrays
+    c.append(_case('unique', x=[], dts=['none']))
+    c.append(_case('unique', x=[], dts=['pylist']))
+    c.append(_case('unique', x=[3, 1, 3, 0], dts=['pylist']))
+    c.append(_case('spc', sc=[], ids=None, dts=['none']))
+    c.append(_case('sic', sc=[], cl=[1], dts=['pylist']))
+    c.append(_case('sic', sc=[2, 1, 2], cl=[2], dts=['pylist']))
     return c
+
+
+SMALL_DT = (('int8', (-128, -1, 0, 1, 127)), ('uint8', (0, 1, 128, 255)))
+
+
+def _dt_cases(kmax):
+    """Every vector up to length kmax over the extreme values of the two 8-bit dtypes (wrapping and not)."""
+    out = []
+    for dt, alpha in SMALL_DT:
+        for v in _vectors(alpha, kmax, 1):
+            out.append(_case('spc_dt', sc=v, ids=None, dts=[dt]))
+    return out
+
+
+def _random_dt_cases(rng, count, nmax):
+    out = []
+    for _ in range(count):
+        dt = rng.choice(['uint8', 'uint16', 'uint32', 'int8', 'int32', 'int64'])
+        lo, hi = LIMITS[dt]
+        pool = [lo, lo + 1, hi, hi - 1, 0, 1, (lo + hi) // 2, (lo + hi) // 2 + 1, rng.randint(lo, hi), rng.randint(lo, hi)]
+        pool = rng.sample(pool, rng.randint(1, len(pool)))
+        n = rng.randint(1, nmax)
+        sc = [rng.choice(pool) for _ in range(n)]
+        ids = None
+        if rng.random() < .3:
+            ids = [rng.randint(0, 50) for _ in range(n + rng.randint(0, 1))]
+        out.append(_case('spc_dt', sc=sc, ids=ids, dts=[dt]))
+    return out
 
 
 def _random_cases(rng, count, nmax, idmax):
@@ -203,6 +263,7 @@ def generate(tier, rng):
                 cases.append(_case('spc', sc=v, ids=None, dts=DT_ALL))
                 cases.append(_case('sic', sc=v, cl=_rand_req(rng, REQ), dts=DT_ALL))
         cases += _random_cases(rng, 1500, 400, 60)
+        cases += _dt_cases(4) + _random_dt_cases(rng, 400, 40)
         return cases
     quick = tier == 'quick'
     L = 6 if quick else 8              # grouping, unique
@@ -262,6 +323,9 @@ def generate(tier, rng):
         ng = rng.randint(1, 4)
         d = [[g, [rng.randint(0, 9) for _ in range(rng.randint(0, 4))]] for g in range(ng)]
         cases.append(_case('flatten', d=d))
+    # ---- the dtype-aware model: every short vector over the extreme values of int8 / uint8; random ones
+    cases += _dt_cases(3 if quick else 5)
+    cases += _random_dt_cases(rng, 150 if quick else 3000, 30 if quick else 200)
     # ---- random long vectors
     if quick:
         cases += _random_cases(rng, 240, 1500, 500)
@@ -278,6 +342,12 @@ class _Bad(Exception):
 
 
 def _arr(np, values, dt):
+    if dt == 'none':              # the argument None (accepted by _unique and _spikes_per_cluster)
+        if values:
+            raise _Bad('None stands for the empty vector only')
+        return None
+    if dt == 'pylist':            # a plain Python list (np.asarray of an empty one is float64)
+        return list(values)
     lo, hi = LIMITS[dt]
     for v in values:
         if not (lo <= v <= hi):
@@ -286,6 +356,14 @@ def _arr(np, values, dt):
 
 
 def _ints(a):
+    return [int(x) for x in a]
+
+
+def _iarr(np, a):
+    """An index array returned by a helper: it must have an integer dtype (an empty float64 array cannot index)."""
+    a = np.asarray(a)
+    if a.dtype.kind not in 'iu' or a.ndim != 1:
+        raise TypeError('result has dtype %s, ndim %d' % (a.dtype, a.ndim))
     return [int(x) for x in a]
 
 
@@ -304,25 +382,25 @@ def _ftok(x):
 
 def _one(np, k, i, dt):
     from phylib.io import array as A
-    if k == 'spc':
+    if k in ('spc', 'spc_dt'):
         sc = _arr(np, i['sc'], dt)
-        ids = None if i['ids'] is None else _arr(np, i['ids'], dt)
+        ids = None if i['ids'] is None else _arr(np, i['ids'], 'int64' if k == 'spc_dt' else dt)
         d = A._spikes_per_cluster(sc, ids) if ids is not None else A._spikes_per_cluster(sc)
         return ['dict', [[int(key), _ints(val)] for key, val in d.items()]]
     if k == 'spc_flatten':
         sc = _arr(np, i['sc'], dt)
         ids = None if i['ids'] is None else _arr(np, i['ids'], dt)
         d = A._spikes_per_cluster(sc, ids) if ids is not None else A._spikes_per_cluster(sc)
-        return ['list', _ints(A._flatten_per_cluster(d))]
+        return ['list', _iarr(np, A._flatten_per_cluster(d))]
     if k == 'sic':
-        return ['list', _ints(A._spikes_in_clusters(_arr(np, i['sc'], dt), list(i['cl'])))]
+        return ['list', _iarr(np, A._spikes_in_clusters(_arr(np, i['sc'], dt), list(i['cl'])))]
     if k == 'unique':
-        return ['list', _ints(A._unique(_arr(np, i['x'], dt)))]
-    if k == 'index_of':
-        return ['list', _ints(A._index_of(_arr(np, i['arr'], dt), list(i['lookup'])))]
+        return ['list', _iarr(np, A._unique(_arr(np, i['x'], dt)))]
+    if k in ('index_of', 'index_of_dt'):
+        return ['list', _iarr(np, A._index_of(_arr(np, i['arr'], dt), list(i['lookup'])))]
     if k == 'flatten':
         d = {key: np.array(val, dtype=np.int64) for key, val in i['d']}
-        return ['list', _ints(A._flatten_per_cluster(d))]
+        return ['list', _iarr(np, A._flatten_per_cluster(d))]
     if k == 'gmean':
         sc = _arr(np, i['sc'], dt)
         cols = i['cols']
@@ -345,16 +423,16 @@ def _one(np, k, i, dt):
         m = TemplateModel.__new__(TemplateModel)
         if i['which'] == 'cluster':
             m.spike_clusters = _arr(np, i['v'], dt)
-            return ['list', _ints(m.get_cluster_spikes(i['c']))]
+            return ['list', _iarr(np, m.get_cluster_spikes(i['c']))]
         m.spike_templates = _arr(np, i['v'], dt)
-        return ['list', _ints(m.get_template_spikes(i['c']))]
+        return ['list', _iarr(np, m.get_template_spikes(i['c']))]
     if k == 'counts':
         from phylib.io.model import TemplateModel
         m = TemplateModel.__new__(TemplateModel)
         m.spike_clusters = _arr(np, i['sc'], 'int32')          # the loader casts spike_clusters to int32
         m.spike_templates = _arr(np, i['st'], dt)
         m.n_templates = i['nt']
-        return ['list', _ints(m.get_template_counts(i['c']))]
+        return ['list', _iarr(np, m.get_template_counts(i['c']))]
     raise _Bad('unknown kind %r' % k)
 
 
@@ -425,6 +503,11 @@ def encode(case, obs):
         cin = q.app('InUnique', q.zl(i['x']))
     elif k == 'index_of':
         cin = q.app('InIndexOf', q.zl(i['arr']), q.zl(i['lookup']))
+    elif k == 'spc_dt':
+        lo, hi = LIMITS[i['dts'][0]]
+        cin = q.app('InSpcDt', q.z(lo), q.z(hi), q.zl(i['sc']), q.opt(i['ids'], q.zl))
+    elif k == 'index_of_dt':
+        cin = q.app('InIndexOfDt', q.zl(i['arr']), q.zl(i['lookup']))
     elif k == 'flatten':
         cin = q.app('InFlatten', _groups(i['d']))
     elif k == 'gmean':
@@ -472,6 +555,10 @@ def dist(case, obs):
                 out.append('%s.raises=%s' % (k, o[1]))
     else:
         out.append('outcome=' + str(obs[0]))
+    if k == 'spc_dt':
+        lo, hi = LIMITS[i['dts'][0]]
+        out.append('spc_dt.span=%s' % ('fits' if not i['sc'] or max(i['sc']) - min(i['sc']) <= hi else 'wraps'))
+        out.append('spc_dt.signed=%s' % (lo < 0))
     if k == 'spc':
         out.append('spc.ids=%s' % ('none' if i['ids'] is None else 'short' if len(i['ids']) < len(i['sc'])
                                    else 'long' if len(i['ids']) > len(i['sc']) else 'given'))
@@ -489,7 +576,7 @@ def size(case):
     return sum(len(v) if isinstance(v, list) else 1 for v in case['inp'].values()) + len(_main_vec(case))
 
 
-PAR = {'spc': [('sc', 'ids')], 'spc_flatten': [('sc', 'ids')], 'sic': [('sc',), ('cl',)], 'unique': [('x',)],
+PAR = {'spc': [('sc', 'ids')], 'spc_dt': [('sc', 'ids')], 'spc_flatten': [('sc', 'ids')], 'sic': [('sc',), ('cl',)], 'unique': [('x',)],
        'index_of': [('arr',), ('lookup',)], 'spikes_of': [('v',)], 'counts': [('sc', 'st')]}
 
 
@@ -530,7 +617,7 @@ def shrink(case):
                 if i.get(key) is not None:
                     kw[key] = _drop(i[key], cut) if len(i[key]) == n or key == keys[0] else i[key]
             yield _with(case, **kw)
-    if k in ('spc', 'spc_flatten') and i['ids'] is not None:
+    if k in ('spc', 'spc_dt', 'spc_flatten') and i['ids'] is not None:
         yield _with(case, ids=None)
     # lower the ids towards a dense alphabet (keeps the order structure)
     for key in ('sc', 'x', 'v'):
